@@ -29,6 +29,25 @@
 //
 // "delivered" = the collector put a message on GetMsgChan (real / cli* / plaincli / rawplaincli), resp. the
 // raw server or the plaintext listener received a complete IPFIX message (srv* / plainsrv).
+//
+//	tls resume <transport> <peer> <first> <second>                         -> <observation of A> ; <observation of B>
+//	                                                                        | na | harness-error <what>
+//
+//	two exporters created ONE AFTER THE OTHER IN THIS PROCESS towards the SAME collector, which stays up for the
+//	whole op (one listener: one set of session-ticket keys / one session store) and has the `trusted` server
+//	certificate (issued by CA 1 for localhost / 127.0.0.1). Exporter A (observation domain 1, <first>) is
+//	initialised, sends its template message, is given time to read what the collector sent back (TLS 1.3 session
+//	tickets arrive after the handshake; CheckConnInterval = 5 ms) and is closed; then exporter B (observation
+//	domain 2, <second>) is initialised and sends its template message. Each observation is that exporter's
+//	own: did ITS InitExportingProcess succeed, was ITS message delivered.
+//	<first>, <second>  <ca1|ca2>-<servername>: CAData = CA 1 (the issuer) or CA 2 only, ServerName as above
+//	<transport> <peer> tls real (library collector) | tls srv12 | tls srv13 (raw crypto/tls server, that MaxVersion)
+//	                   | dtls srv12 (raw pion/dtls server WITH a SessionStore; the library's DTLS collector accepts
+//	                   a single connection and has no SessionStore, so it cannot take part)
+//	The resume ops are run first, one at a time and before any cell: a session cache shared between exporters is
+//	keyed by server name / host, so concurrent cells towards other collectors on 127.0.0.1 would evict the session
+//	the op is about.
+//
 // Only positive evidence counts: "not-delivered" means nothing arrived within the negative timeout, or the
 // session is known to be dead (the raw peer's handshake failed / its connection was torn down by the other
 // side). A cell that ends `init-ok not-delivered` on a timeout is run a second time and a delivery in
@@ -37,6 +56,7 @@ package main
 
 import (
 	"bufio"
+	"context"
 	"crypto/ecdsa"
 	"crypto/elliptic"
 	"crypto/rand"
@@ -59,6 +79,7 @@ import (
 	"sync/atomic"
 	"time"
 
+	"github.com/pion/dtls/v2"
 	"k8s.io/klog/v2"
 
 	"github.com/vmware/go-ipfix/pkg/collector"
@@ -284,6 +305,8 @@ type runningCollector struct {
 	once      sync.Once
 	drainDone chan struct{}
 	stopDrain chan struct{}
+	mu        sync.Mutex
+	domains   map[uint32]bool // observation domains a message was delivered from
 }
 
 func startCollector(c cell, encrypted bool) (*runningCollector, error) {
@@ -305,13 +328,17 @@ func startCollector(c cell, encrypted bool) (*runningCollector, error) {
 	if err != nil {
 		return nil, err
 	}
-	rc := &runningCollector{cp: cp, delivered: make(chan struct{}), drainDone: make(chan struct{}), stopDrain: make(chan struct{})}
+	rc := &runningCollector{cp: cp, delivered: make(chan struct{}), drainDone: make(chan struct{}), stopDrain: make(chan struct{}),
+		domains: map[uint32]bool{}}
 	go func() { // the message channel is unbuffered: somebody has to read it
 		defer close(rc.drainDone)
 		for {
 			select {
 			case m := <-cp.GetMsgChan():
 				if m != nil {
+					rc.mu.Lock()
+					rc.domains[m.GetObsDomainID()] = true
+					rc.mu.Unlock()
 					rc.once.Do(func() { close(rc.delivered) })
 				}
 			case <-rc.stopDrain:
@@ -338,6 +365,23 @@ func (rc *runningCollector) waitDelivered(d time.Duration) bool {
 		return true
 	case <-time.After(d):
 		return false
+	}
+}
+
+// waitDomain: a message from this observation domain was delivered within d
+func (rc *runningCollector) waitDomain(dom uint32, d time.Duration) bool {
+	deadline := time.Now().Add(d)
+	for {
+		rc.mu.Lock()
+		ok := rc.domains[dom]
+		rc.mu.Unlock()
+		if ok {
+			return true
+		}
+		if time.Now().After(deadline) {
+			return false
+		}
+		time.Sleep(2 * time.Millisecond)
 	}
 }
 
@@ -375,6 +419,10 @@ func startExporter(c cell, addr string, secure bool) (*exporter.ExportingProcess
 		}
 		in.TLSClientConfig = cfg
 	}
+	return initExporter(in)
+}
+
+func initExporter(in exporter.ExporterInput) (*exporter.ExportingProcess, error) {
 	type res struct {
 		ep  *exporter.ExportingProcess
 		err error
@@ -753,6 +801,351 @@ func runRawPlainClient(c cell) obs {
 	return o
 }
 
+// ---- two exporters one after the other, one collector (session resumption) ---------------------------
+
+type trust struct{ ca, serverName string }
+
+func parseTrust(s string) (trust, bool) {
+	i := strings.IndexByte(s, '-')
+	if i < 0 {
+		return trust{}, false
+	}
+	t := trust{s[:i], s[i+1:]}
+	return t, inSet(t.ca, "ca1", "ca2") && inSet(t.serverName, "unset", "dns", "ip", "baddns", "badip")
+}
+
+type resumeOp struct {
+	transport, peer string
+	first, second   trust
+}
+
+func parseResume(f []string) (resumeOp, bool) {
+	if len(f) != 4 {
+		return resumeOp{}, false
+	}
+	a, ok1 := parseTrust(f[2])
+	b, ok2 := parseTrust(f[3])
+	r := resumeOp{f[0], f[1], a, b}
+	ok := ok1 && ok2 && inSet(r.transport, "tls", "dtls") &&
+		inSet(r.peer, "real", "srv11", "srv12", "srv13", "cli11", "cli12", "cli13", "plainsrv", "plaincli", "rawplaincli")
+	return r, ok
+}
+
+func (r resumeOp) valid() bool {
+	if r.transport == "tls" {
+		return inSet(r.peer, "real", "srv12", "srv13")
+	}
+	return r.peer == "srv12"
+}
+
+// resumeServer is the one collector of a resume op. wait reports what became of the exporter that was just
+// initialised (exporterOk = its InitExportingProcess succeeded) with observation domain dom.
+type resumeServer struct {
+	addr string
+	wait func(dom uint32, exporterOk bool) (delivered bool, version uint16, herr string)
+	stop func()
+}
+
+func libraryResumeServer(c cell) (*resumeServer, error) {
+	rc, err := startCollector(c, true)
+	if err != nil {
+		return nil, err
+	}
+	return &resumeServer{
+		addr: rc.addr,
+		wait: func(dom uint32, exporterOk bool) (bool, uint16, string) {
+			if exporterOk {
+				return rc.waitDomain(dom, c.neg()), 0, ""
+			}
+			if rc.waitDomain(dom, 50*time.Millisecond) {
+				return false, 0, "delivered-after-init-error"
+			}
+			return false, 0, ""
+		},
+		stop: rc.stop,
+	}, nil
+}
+
+// what a raw server saw of one connection
+type rawConnResult struct {
+	handshake bool
+	version   uint16
+	delivered bool
+	dom       uint32
+}
+
+// readIPFIX reads one complete IPFIX message and returns its observation domain
+func readIPFIX(conn net.Conn, stream bool) (uint32, bool) {
+	if stream {
+		hdr := make([]byte, 16)
+		if _, err := io.ReadFull(conn, hdr); err != nil || binary.BigEndian.Uint16(hdr) != 10 {
+			return 0, false
+		}
+		l := int(binary.BigEndian.Uint16(hdr[2:]))
+		if l < 16 {
+			return 0, false
+		}
+		if _, err := io.ReadFull(conn, make([]byte, l-16)); err != nil {
+			return 0, false
+		}
+		return binary.BigEndian.Uint32(hdr[12:]), true
+	}
+	buf := make([]byte, 65535)
+	n, err := conn.Read(buf)
+	if err != nil || !looksLikeIPFIX(buf[:n]) {
+		return 0, false
+	}
+	return binary.BigEndian.Uint32(buf[12:]), true
+}
+
+// rawResumeWait: exactly one connection attempt reaches the raw server per exporter, and the exporters of an op
+// are strictly sequential, so the next result belongs to the exporter that was just initialised
+func rawResumeWait(results chan rawConnResult) func(uint32, bool) (bool, uint16, string) {
+	return func(dom uint32, exporterOk bool) (bool, uint16, string) {
+		select {
+		case r := <-results:
+			if r.delivered && r.dom != dom {
+				return false, 0, "message-of-another-exporter"
+			}
+			if r.delivered && !exporterOk {
+				return false, 0, "delivered-after-init-error"
+			}
+			v := uint16(0)
+			if r.handshake {
+				v = r.version
+			}
+			return r.delivered, v, ""
+		case <-time.After(2*negDTLS + time.Second):
+			if exporterOk {
+				return false, 0, "raw-server-hang"
+			}
+			return false, 0, "" // the exporter gave up before the server saw a connection
+		}
+	}
+}
+
+// raw crypto/tls server that stays up and hands out session tickets (crypto/tls does unless told otherwise)
+func rawTLSResumeServer(maxVersion uint16) (*resumeServer, error) {
+	cfg := &tls.Config{
+		Certificates: []tls.Certificate{serverCerts["trusted"].tlsCert},
+		MinVersion:   tls.VersionTLS10,
+		MaxVersion:   maxVersion,
+	}
+	ln, err := tls.Listen("tcp", "127.0.0.1:0", cfg)
+	if err != nil {
+		return nil, err
+	}
+	results := make(chan rawConnResult, 16)
+	go func() {
+		for {
+			conn, err := ln.Accept()
+			if err != nil {
+				return
+			}
+			go func() {
+				defer conn.Close()
+				tc := conn.(*tls.Conn)
+				tc.SetDeadline(time.Now().Add(initBudget))
+				if err := tc.Handshake(); err != nil {
+					results <- rawConnResult{}
+					return
+				}
+				r := rawConnResult{handshake: true, version: tc.ConnectionState().Version}
+				tc.SetDeadline(time.Now().Add(negTLS))
+				r.dom, r.delivered = readIPFIX(tc, true)
+				results <- r
+				// stay connected until the exporter hangs up: it must get the chance to read the session tickets
+				tc.SetDeadline(time.Now().Add(initBudget))
+				io.Copy(io.Discard, tc)
+			}()
+		}
+	}()
+	return &resumeServer{addr: ln.Addr().String(), wait: rawResumeWait(results), stop: func() { ln.Close() }}, nil
+}
+
+// memStore is a pion SessionStore (the server keys it by session id)
+type memStore struct {
+	mu sync.Mutex
+	m  map[string]dtls.Session
+}
+
+func (s *memStore) Set(key []byte, v dtls.Session) error {
+	s.mu.Lock()
+	defer s.mu.Unlock()
+	s.m[string(key)] = v
+	return nil
+}
+
+func (s *memStore) Get(key []byte) (dtls.Session, error) {
+	s.mu.Lock()
+	defer s.mu.Unlock()
+	return s.m[string(key)], nil // the zero Session (ID == nil) is a miss
+}
+
+func (s *memStore) Del(key []byte) error {
+	s.mu.Lock()
+	defer s.mu.Unlock()
+	delete(s.m, string(key))
+	return nil
+}
+
+// raw pion/dtls server that stays up and offers session resumption (a session id in its ServerHello)
+func rawDTLSResumeServer() (*resumeServer, error) {
+	cfg := &dtls.Config{
+		Certificates:         []tls.Certificate{serverCerts["trusted"].tlsCert},
+		ExtendedMasterSecret: dtls.RequireExtendedMasterSecret,
+		SessionStore:         &memStore{m: map[string]dtls.Session{}},
+		ConnectContextMaker: func() (context.Context, func()) {
+			return context.WithTimeout(context.Background(), 2*negDTLS)
+		},
+	}
+	ln, err := dtls.Listen("udp", &net.UDPAddr{IP: net.ParseIP("127.0.0.1")}, cfg)
+	if err != nil {
+		return nil, err
+	}
+	results := make(chan rawConnResult, 16)
+	var closed atomic.Bool
+	go func() {
+		for {
+			conn, err := ln.Accept() // pion v2 runs the handshake inside Accept
+			if closed.Load() {
+				if conn != nil {
+					conn.Close()
+				}
+				return
+			}
+			if err != nil {
+				results <- rawConnResult{}
+				continue
+			}
+			go func() {
+				defer conn.Close()
+				r := rawConnResult{handshake: true}
+				conn.SetReadDeadline(time.Now().Add(negDTLS))
+				r.dom, r.delivered = readIPFIX(conn, false)
+				results <- r
+				conn.SetReadDeadline(time.Now().Add(initBudget))
+				buf := make([]byte, 2048)
+				for {
+					if _, err := conn.Read(buf); err != nil {
+						return
+					}
+				}
+			}()
+		}
+	}()
+	return &resumeServer{addr: ln.Addr().String(), wait: rawResumeWait(results), stop: func() {
+		closed.Store(true)
+		done := make(chan struct{})
+		go func() { ln.Close(); close(done) }()
+		select {
+		case <-done:
+		case <-time.After(stopWait):
+		}
+	}}, nil
+}
+
+// one exporter of a resume op
+func resumeExporter(r resumeOp, srv *resumeServer, t trust, dom uint32, linger time.Duration) obs {
+	caData := trustedCA.pemCrt
+	if t.ca == "ca2" {
+		caData = otherCA.pemCrt
+	}
+	proto := "tcp"
+	if r.transport == "dtls" {
+		proto = "udp"
+	}
+	ep, err := initExporter(exporter.ExporterInput{
+		CollectorAddress:    srv.addr,
+		CollectorProtocol:   proto,
+		ObservationDomainID: dom,
+		TLSClientConfig:     &exporter.ExporterTLSClientConfig{ServerName: serverNames[t.serverName], CAData: caData},
+		CheckConnInterval:   5 * time.Millisecond,
+	})
+	if err != nil && err.Error() == "init-hang" {
+		return obs{harnessErr: "init-hang"}
+	}
+	o := obs{initOk: err == nil}
+	if err == nil {
+		_ = sendTemplate(ep)
+	}
+	delivered, version, herr := srv.wait(dom, err == nil)
+	if herr != "" {
+		o = obs{harnessErr: herr}
+	} else {
+		o.delivered, o.version = delivered, version
+	}
+	if err == nil {
+		// the periodic connection check is the only reader of the connection: let it run a few dozen times
+		time.Sleep(linger)
+		closeExporter(ep)
+	}
+	return o
+}
+
+func runResumeOnce(r resumeOp) (obs, obs) {
+	var srv *resumeServer
+	var err error
+	switch {
+	case r.transport == "dtls":
+		srv, err = rawDTLSResumeServer()
+	case r.peer == "real":
+		srv, err = libraryResumeServer(cell{transport: "tls", serverCert: "trusted", serverName: "unset", clientCert: "none", clientCA: "unset", peer: "real"})
+	default:
+		srv, err = rawTLSResumeServer(peerMax(r.peer))
+	}
+	if err != nil {
+		return obs{harnessErr: err.Error()}, obs{}
+	}
+	defer srv.stop()
+	a := resumeExporter(r, srv, r.first, 1, 300*time.Millisecond)
+	if a.harnessErr != "" {
+		return a, obs{}
+	}
+	b := resumeExporter(r, srv, r.second, 2, 0)
+	return a, b
+}
+
+func runResume(r resumeOp) (out string) {
+	defer func() {
+		if rec := recover(); rec != nil {
+			out = "panic"
+			if os.Getenv("VERIF_PANIC_TRACE") != "" {
+				fmt.Fprintf(os.Stderr, "panic in %+v: %v\n", r, rec)
+			}
+		}
+	}()
+	if !r.valid() {
+		return "na"
+	}
+	a, b := runResumeOnce(r)
+	retry := func(o obs) bool {
+		return o.harnessErr == "collector-did-not-start" || (o.harnessErr == "" && o.initOk && !o.delivered)
+	}
+	if retry(a) || retry(b) {
+		// only positive evidence counts: a second, fresh attempt before "not delivered" stands
+		a2, b2 := runResumeOnce(r)
+		if a2.harnessErr == "" && b2.harnessErr == "" {
+			if retry(a) && !retry(a2) {
+				a = a2
+			}
+			if retry(b) && !retry(b2) {
+				b = b2
+			}
+		}
+	}
+	if a.harnessErr != "" {
+		return a.String()
+	}
+	if b.harnessErr != "" {
+		return b.String()
+	}
+	if r.transport == "dtls" {
+		a.version, b.version = 0, 0
+	}
+	return a.String() + " ; " + b.String()
+}
+
 func runCellOnce(c cell) obs {
 	switch {
 	case c.peer == "real":
@@ -832,6 +1225,17 @@ func main() {
 		workers = w
 	}
 	results := make([]string, len(lines))
+	// the resume ops first, one at a time, while nothing else touches a (possibly shared) session cache
+	isResume := func(f []string) bool { return len(f) >= 2 && f[0] == "tls" && f[1] == "resume" }
+	for i := range lines {
+		if f := strings.Fields(lines[i]); isResume(f) {
+			if r, ok := parseResume(f[2:]); ok {
+				results[i] = runResume(r)
+			} else {
+				results[i] = "bad-op"
+			}
+		}
+	}
 	jobs := make(chan int)
 	var wg sync.WaitGroup
 	for w := 0; w < workers; w++ {
@@ -843,6 +1247,8 @@ func main() {
 				switch {
 				case len(f) == 0 || strings.HasPrefix(f[0], "#"):
 					results[i] = "skip"
+				case isResume(f):
+					// run above, before the pool started
 				case len(f) >= 2 && f[0] == "tls" && f[1] == "cell":
 					if c, ok := parseCell(f[2:]); ok {
 						results[i] = runCell(c)
